@@ -327,6 +327,7 @@ package xmss
 //@   ensures[C04] result ==> extendedPK[0] % 16 <= 2
 //@   ensures[C04] result ==> 2 * (extendedPK[1] % 16) >= 4 && len(signature) % 4294967296 == 36 + spec.wotsKeySize(wotsParamW) + 32 * 2 * (extendedPK[1] % 16)
 //@   exit[C04] result == purefn("xmss.xmssVerifySig", "r0", hashFunction, params.wotsParams, message, signature, extendedPK[3:67], height) && hashFunction == extendedPK[0] % 16 && height == 2 * (extendedPK[1] % 16) && wotsOK(params.wotsParams) && params.wotsParams.w == wotsParamW
+//@   exit[C04] hashFunction <= 2 ==> (result <==> (len(message) + 128 <= 4294967295 && forall k_ :: 0 <= k_ && k_ < 32 ==> vRoot(hashFunction, params.wotsParams, message, signature, extendedPK[3:67], height)[k_] == extendedPK[3+k_]))
 //@   panics "invalid signature size. Height<=254"
 //@   panics "invalid signature type"
 //@   panics "Invalid signature size"
